@@ -67,6 +67,10 @@ func reqKey(o *Obs) string {
 	return fmt.Sprintf("%d h%d %s pat=%q params=%s", o.Status, o.HID, o.Kind, o.Pattern, fmtParams(o.Params))
 }
 
+// starKey: OPTIONS * involves no dispatch decision, its Allow set is read at one
+// instant inside the request, so the whole answer must be sequentially producible.
+func starKey(o *Obs) string { return reqKey(o) + " allow=" + canonSet(o.Allow) }
+
 func routesKey(r map[string][]string) string {
 	c := canonRoutes(r)
 	ks := make([]string, 0, len(c))
@@ -91,6 +95,9 @@ func perform(e *Env, r *mux.Router[*Comp], op *Op) (out string) {
 	switch op.K {
 	case "req":
 		o := Serve(r, *op.Req, nil, nil)
+		if op.Req.Path == "*" && op.Req.Method == "OPTIONS" {
+			return starKey(&o)
+		}
 		return reqKey(&o)
 	case "routes":
 		return routesKey(r.Routes())
@@ -316,12 +323,12 @@ func genC06(r *Rng, idx int, tier string) *World {
 			case k < 5:
 				op.K = "handle"
 				op.HID = (t+1)*1000 + i
-				op.Methods = []string{pick(r, []string{"GET", "GET", "POST", "PUT"})}
+				op.Methods = []string{pick(r, []string{"GET", "GET", "POST", "PUT", "DELETE", "PATCH"})}
 			case k < 7:
 				op.K = "remove"
 			case k < 9:
 				op.K = "remove"
-				op.Methods = []string{pick(r, []string{"GET", "POST", "PUT"})}
+				op.Methods = []string{pick(r, []string{"GET", "POST", "PUT", "DELETE", "PATCH"})}
 			default:
 				if fullClean {
 					op.K, op.Pattern = "clean", ""
@@ -352,6 +359,9 @@ func genC06(r *Rng, idx int, tier string) *World {
 				p := pick(r, all)
 				path, _ := p.Witness(r)
 				op.Req = &Req{Method: pick(r, []string{"GET", "GET", "GET", "POST", "HEAD", "OPTIONS", "PUT"}), Path: path}
+				if r.Pct(12) {
+					op.Req = &Req{Method: "OPTIONS", Path: "*"}
+				}
 			case k < 8:
 				op.K = "routes"
 			default:
